@@ -10,6 +10,9 @@ import GuppyVerif.Util.Sexp
   (runa path val)             -> place-level execution of callee(π)
   (lens path val)             -> putP π (f (getP π val)) val    (the specification)
   (sig ((name borrowed)…) (result…))  -> hugrOutputs and the port assignment of _update_inout_ports
+  (wt ty path)                -> `ok` iff the path is well typed under the root type (hypothesis WT of wire_writeback)
+  (emitassign ty path) | (runw2 prog val (i…) val2) | (runa2 path val val2) | (lens2 path val val2)
+                              -> the same for the assignment `π = v` (new value val2 is the last input)
  The callee adds 1000 to every leaf of its argument.  replies: `ok …` | `err <name>` | `bad-request`. -/
 open GuppyVerif GuppyVerif.Places
 
@@ -54,6 +57,7 @@ def showOp : Op → String × List String
   | .borrow => ("borrow", [])
   | .ret => ("return", [])
   | .call n => ("call", [n])
+  | .drop => ("drop", [])
   | .other n => (n, [])
 
 def showProg (p : Prog) : String :=
@@ -70,6 +74,7 @@ def parseOp (name : String) (ps : List String) : Op :=
   | "borrow", [] => .borrow
   | "return", [] => .ret
   | "call", [n] => .call n
+  | "drop", [] => .drop
   | _, _ => .other name
 
 def parseInstr : Sexp → Option Instr
@@ -107,6 +112,31 @@ def handleSexp : Sexp → Option String
     match runW bump pr (.val v :: is.map .int) with
     | .ok ws => some ("ok " ++ " ".intercalate (ws.map showW))
     | .error e => some (showErr e)
+  | .list [.atom "wt", t, p] => do
+    let p ← parsePath p
+    match wtCheck (← parseTy t) p.chunks p.tail with
+    | some _ => some "ok"
+    | none => some "none"
+  | .list [.atom "emitassign", t, p] => do
+    some (showProg (emitAssignW (← parseTy t) (← parsePath p)))
+  | .list [.atom "runw2", pr, v, is, v2] => do
+    let pr ← parseProg pr
+    let v ← parseV v
+    let v2 ← parseV v2
+    let is ← Sexp.natList? is
+    match runW bump pr (.val v :: is.map .int ++ [.val v2]) with
+    | .ok ws => some ("ok " ++ " ".intercalate (ws.map showW))
+    | .error e => some (showErr e)
+  | .list [.atom "runa2", p, v, v2] => do
+    let v2 ← parseV v2
+    match callBorrowA (fun _ => v2) (← parsePath p) (← parseV v) with
+    | .ok r => some ("ok " ++ showV r)
+    | .error e => some (showErr e)
+  | .list [.atom "lens2", p, v, v2] => do
+    let p ← parsePath p
+    match putP p.steps (← parseV v2) (← parseV v) with
+    | none => some "none"
+    | some r => some ("ok " ++ showV r)
   | .list [.atom "runa", p, v] => do
     match callBorrowA bump (← parsePath p) (← parseV v) with
     | .ok r => some ("ok " ++ showV r)
